@@ -2,7 +2,7 @@
    accepts, with the same types: it is an upper bound, so "strict accepts => real accepts => lenient accepts" is a
    meaningful sandwich for the comparison with the real type checker (checks/lmmt_part.py). *)
 From Coq Require Import List ZArith NArith Bool Lia.
-From Mimium Require Import Lmmm.Syntax Lmmx.Syntax Lmmt.Types Lmmt.Check.
+From Mimium Require Import Lmmm.Syntax Lmmx.Syntax Lmmx.World Lmmx.MatchSelf Lmmt.Types Lmmt.Check.
 Import ListNotations.
 
 Section XInd.
@@ -77,7 +77,32 @@ Section XInd.
 End XInd.
 
 Lemma ty_sim_refl : forall t, ty_sim t t = true.
-Proof. destruct t; cbn; auto. apply Nat.eqb_refl. Qed.
+Proof. destruct t; cbn; auto; [apply Nat.eqb_refl|apply N.eqb_refl]. Qed.
+
+(* the types `self` is read at hold no closure *)
+Lemma ty_of_shape_no_fn : forall sh, ty_has_fn (ty_of_shape sh) = false.
+Proof.
+  induction sh as [|shs IH|fs IH|nm cs IH] using shape_ind'; cbn [ty_of_shape ty_has_fn]; auto.
+  - induction IH as [|x l Hx _ IHl]; cbn; auto. rewrite Hx, IHl. reflexivity.
+  - induction IH as [|x l Hx _ IHl]; cbn; auto. rewrite Hx, IHl. reflexivity.
+  - induction IH as [|[x|] l Hx _ IHl]; cbn in *; auto. rewrite Hx, IHl. reflexivity.
+Qed.
+
+Lemma Forall_flat_map : forall A B (P : B -> Prop) (f : A -> list B) l,
+  Forall (fun a => Forall P (f a)) l -> Forall P (flat_map f l).
+Proof. intros A B P f l H. induction H; cbn; auto. apply Forall_app. split; auto. Qed.
+
+Lemma self_tys_data : forall e, Forall (fun t => ty_has_fn t = false) (self_tys e).
+Proof.
+  induction e using xexpr_ind'; cbn [self_tys];
+    try (destruct arg as [a0|]; [apply (H a0 eq_refl)|constructor]);
+    repeat match goal with
+           | |- Forall _ (_ ++ _) => apply Forall_app; split
+           | |- Forall _ (flat_map _ _) => apply Forall_flat_map
+           | |- Forall _ [] => constructor
+           | |- Forall _ [_] => constructor; [|constructor]
+           end; auto using ty_of_shape_no_fn.
+Qed.
 
 Lemma tys_sim_refl : forall ts, tys_sim ts ts = true.
 Proof.
@@ -88,8 +113,9 @@ Qed.
 
 Section Extends.
   Variables par ret : list (ident * ty).
-  Let S := mkAnn par ret.
-  Let L := mkLenient par ret.
+  Variable sums : list (ident * list (option ty)).
+  Let S := mkAnn par ret sums.
+  Let L := mkLenient par ret sums.
 
   Lemma an_ty_same : forall x, an_ty L x = an_ty S x.
   Proof. reflexivity. Qed.
@@ -125,8 +151,41 @@ Section Extends.
 
   Lemma self_ok_ext : forall body rt, self_ok body rt = true -> self_ok_in true body rt = true.
   Proof.
-    intros body rt H. unfold self_ok in H. unfold self_ok_in. destruct (xuses_self body); cbn in *; auto.
-    apply ty_eqb_eq in H. subst. reflexivity.
+    intros body rt H. unfold self_ok in H. unfold self_ok_in, xuses_self. pose proof (self_tys_data body) as Hd.
+    destruct (self_tys body) as [|t l]; cbn in *; auto.
+    apply andb_true_iff in H. destruct H as [H _]. apply ty_eqb_eq in H. subst. inversion Hd; subst. rewrite H1. reflexivity.
+  Qed.
+
+  Lemma tc_mpat_len : forall m t G G', tc_mpat false m t G = Some G' -> tc_mpat true m t G = Some G'.
+  Proof.
+    induction m as [z| |tag p|ms IH] using mpat_ind'; intros t G G' H; cbn [tc_mpat andb] in *; auto.
+    - destruct t; try discriminate; auto.
+    - destruct t as [| | | | |nm cs]; try discriminate.
+      destruct (nth_error cs tag) as [[t'|]|]; destruct p as [q|]; try discriminate; auto.
+    - destruct t as [| |ts| | |]; try discriminate.
+      revert ts G H. induction IH as [|m ms Hm _ IHms]; intros ts G H; destruct ts as [|t ts]; try discriminate; auto.
+      destruct (tc_mpat false m t G) as [G1|] eqn:E1; try discriminate. rewrite (Hm _ _ _ E1). auto.
+  Qed.
+
+  Lemma tc_arms_ext : forall arms G ts tys,
+    Forall (fun a => forall G t, tc S G (snd a) = Some t -> tc L G (snd a) = Some t) arms ->
+    tc_arms S false G ts arms = Some tys -> tc_arms L true G ts arms = Some tys.
+  Proof.
+    induction arms as [|a arms IH]; intros G ts tys HF H; cbn [tc_arms] in *; auto.
+    inversion HF as [|? ? Ha Harms]; subst.
+    destruct (tc_mpat false (fst a) ts G) as [G'|] eqn:E1; try discriminate. rewrite (tc_mpat_len _ _ _ _ E1).
+    destruct (tc S G' (snd a)) as [t|] eqn:E2; try discriminate. rewrite (Ha _ _ E2).
+    change (match tc_arms S false G ts arms with Some tl => Some (t :: tl) | None => None end = Some tys) in H.
+    change (match tc_arms L true G ts arms with Some tl => Some (t :: tl) | None => None end = Some tys).
+    destruct (tc_arms S false G ts arms) as [tl|] eqn:E3; try discriminate. rewrite (IH _ _ _ Harms E3). exact H.
+  Qed.
+
+  Lemma exhaustive_ext : forall t ms, exhaustive t ms = true -> exhaustive_len t ms = true.
+  Proof.
+    intros t ms H. unfold exhaustive in H. unfold exhaustive_len. destruct t; auto.
+    apply orb_true_iff in H. apply orb_true_iff. destruct H as [H|H]; [left|right; exact H].
+    apply existsb_exists in H. destruct H as (m & Hin & Hi). apply existsb_exists. exists m. split; auto.
+    destruct m; cbn in Hi; try discriminate; reflexivity.
   Qed.
 
   Ltac unfold_cfg :=
@@ -139,37 +198,37 @@ Section Extends.
   Proof.
     induction e using xexpr_ind'; intros G t Htc; cbn [tc] in *; unfold_cfg; cbn iota in *; auto.
     - (* XBin *)
-      destruct (tc S G e1) as [[| | | |]|] eqn:E1; try discriminate.
-      destruct (tc S G e2) as [[| | | |]|] eqn:E2; try discriminate.
+      destruct (tc S G e1) as [[| | | | |]|] eqn:E1; try discriminate.
+      destruct (tc S G e2) as [[| | | | |]|] eqn:E2; try discriminate.
       rewrite (IHe1 _ _ E1), (IHe2 _ _ E2). inversion Htc; subst. destruct op; reflexivity.
     - (* XNeg *)
-      destruct (tc S G e) as [[| | | |]|] eqn:E1; try discriminate. rewrite (IHe _ _ E1). exact Htc.
+      destruct (tc S G e) as [[| | | | |]|] eqn:E1; try discriminate. rewrite (IHe _ _ E1). exact Htc.
     - (* XLet *)
       destruct (tc S G e1) as [ta|] eqn:E1; try discriminate. rewrite (IHe1 _ _ E1).
       destruct (tc_pat p ta G); try discriminate. auto.
     - (* XIf *)
-      destruct (tc S G e1) as [[| | | |]|] eqn:E1; try discriminate. rewrite (IHe1 _ _ E1).
+      destruct (tc S G e1) as [[| | | | |]|] eqn:E1; try discriminate. rewrite (IHe1 _ _ E1).
       destruct (tc S G e2) as [t2|] eqn:E2; try discriminate.
       destruct (tc S G e3) as [t3|] eqn:E3; try discriminate.
       rewrite (IHe2 _ _ E2), (IHe3 _ _ E3). unfold_cfg.
       destruct (ty_eqb t2 t3) eqn:Eq; try discriminate. apply ty_eqb_eq in Eq. subst. rewrite ty_sim_refl. exact Htc.
     - (* XMem *)
-      destruct (tc S G e) as [[| | | |]|] eqn:E1; try discriminate. rewrite (IHe _ _ E1). exact Htc.
+      destruct (tc S G e) as [[| | | | |]|] eqn:E1; try discriminate. rewrite (IHe _ _ E1). exact Htc.
     - (* XDelay *)
-      destruct (tc S G e1) as [[| | | |]|] eqn:E1; try discriminate.
-      destruct (tc S G e2) as [[| | | |]|] eqn:E2; try discriminate.
+      destruct (tc S G e1) as [[| | | | |]|] eqn:E1; try discriminate.
+      destruct (tc S G e2) as [[| | | | |]|] eqn:E2; try discriminate.
       rewrite (IHe1 _ _ E1), (IHe2 _ _ E2). exact Htc.
     - (* XTuple *)
       destruct (omap (fun x => tc S G x) es) as [ts|] eqn:E1; try discriminate.
       rewrite (omap_ext _ _ _ H E1). exact Htc.
     - (* XProj *)
-      destruct (tc S G e) as [[| |ts| |]|] eqn:E1; try discriminate. rewrite (IHe _ _ E1). exact Htc.
+      destruct (tc S G e) as [[| |ts| | |]|] eqn:E1; try discriminate. rewrite (IHe _ _ E1). exact Htc.
     - (* XRecord *)
       destruct (keys_increasing fs); try discriminate.
       destruct (ofields (fun x => tc S G x) fs) as [ts|] eqn:E1; try discriminate.
       rewrite (ofields_ext _ _ _ H E1). exact Htc.
     - (* XField *)
-      destruct (tc S G e) as [[| | |fts|]|] eqn:E1; try discriminate. rewrite (IHe _ _ E1). exact Htc.
+      destruct (tc S G e) as [[| | |fts| |]|] eqn:E1; try discriminate. rewrite (IHe _ _ E1). exact Htc.
     - (* XLam *)
       destruct (ids_nodup ps); try discriminate.
       change (map (an_ty L) ps) with (map (an_ty S) ps).
@@ -178,7 +237,7 @@ Section Extends.
       destruct (self_ok_in false e rt) eqn:Es; try discriminate. cbn [self_ok_in] in Es.
       rewrite (self_ok_ext _ _ Es). exact Htc.
     - (* XApp *)
-      destruct (tc S G e) as [[| | | |pts rt]|] eqn:E1; try discriminate. rewrite (IHe _ _ E1).
+      destruct (tc S G e) as [[| | | |pts rt|]|] eqn:E1; try discriminate. rewrite (IHe _ _ E1).
       destruct (omap (fun x => tc S G x) args) as [ats|] eqn:E2; try discriminate.
       rewrite (omap_ext _ _ _ H E2). unfold_cfg.
       destruct (tys_eqb ats pts) eqn:Eq; try discriminate. apply tys_eqb_eq in Eq. subst. rewrite tys_sim_refl. exact Htc.
@@ -190,7 +249,7 @@ Section Extends.
       destruct (named_ok ty_eqb (sg_params sg) gts) eqn:En; try discriminate.
       rewrite (named_ok_ext _ _ En). exact Htc.
     - (* XPipe *)
-      destruct (tc S G e2) as [[| | | |pts rt]|] eqn:E1; try discriminate. rewrite (IHe2 _ _ E1).
+      destruct (tc S G e2) as [[| | | |pts rt|]|] eqn:E1; try discriminate. rewrite (IHe2 _ _ E1).
       destruct (tc S G e1) as [ta|] eqn:E2; try discriminate. rewrite (IHe1 _ _ E2). unfold_cfg.
       destruct (tys_eqb [ta] pts) eqn:Eq; try discriminate. apply tys_eqb_eq in Eq. subst. rewrite tys_sim_refl. exact Htc.
     - (* XAssign *)
@@ -199,6 +258,26 @@ Section Extends.
       destruct (ty_eqb t' te) eqn:Eq; try discriminate. apply ty_eqb_eq in Eq. subst. rewrite ty_sim_refl. exact Htc.
     - (* XSeq *)
       destruct (tc S G e1) as [ta|] eqn:E1; try discriminate. rewrite (IHe1 _ _ E1). auto.
+    - (* XCon *)
+      change (an_sums L) with (an_sums S).
+      destruct (rlookup tn (an_sums S)) as [cs|]; try discriminate.
+      destruct (nth_error cs tag) as [[t'|]|]; destruct arg as [a|]; try discriminate; auto.
+      destruct (tc S G a) as [ta|] eqn:E1; try discriminate. rewrite (H a eq_refl _ _ E1). unfold_cfg.
+      destruct (ty_eqb t' ta) eqn:Eq; try discriminate. apply ty_eqb_eq in Eq. subst. rewrite ty_sim_refl. exact Htc.
+    - (* XMatch *)
+      destruct (tc S G e) as [ts|] eqn:E1; try discriminate. rewrite (IHe _ _ E1).
+      change (match tc_arms S false G ts arms with
+              | Some (t0 :: tl) => if forallb (ty_eqb t0) tl && exhaustive ts (map fst arms) then Some t0 else None
+              | _ => None
+              end = Some t) in Htc.
+      change (match tc_arms L true G ts arms with
+              | Some (t0 :: tl) => if exhaustive_len ts (map fst arms) then Some t0 else None
+              | _ => None
+              end = Some t).
+      destruct (tc_arms S false G ts arms) as [[|t0 tl]|] eqn:Ea; try discriminate.
+      rewrite (tc_arms_ext _ _ _ _ H Ea).
+      destruct (forallb (ty_eqb t0) tl && exhaustive ts (map fst arms)) eqn:Ec; try discriminate.
+      apply andb_true_iff in Ec. destruct Ec as [_ Eex]. rewrite (exhaustive_ext _ _ Eex). exact Htc.
   Qed.
 
   Lemma tc_globals_extends : forall gs G G', tc_globals S gs G = Some G' -> tc_globals L gs G = Some G'.
@@ -242,7 +321,7 @@ Section Extends.
     assert (E3 : forallb (fun e => is_some (tc L G1 e)) (x_outs p) = true).
     { clear H. induction (x_outs p) as [|e es IH]; cbn in *; auto.
       apply andb_true_iff in E2. destruct E2 as [Ea Eb]. rewrite (IH Eb), andb_true_r.
-      destruct (tc S G1 e) as [[| | | |]|] eqn:Ee; try discriminate. rewrite (tc_extends _ _ _ Ee). reflexivity. }
+      destruct (tc S G1 e) as [[| | | | |]|] eqn:Ee; try discriminate. rewrite (tc_extends _ _ _ Ee). reflexivity. }
     rewrite E3. exact H.
   Qed.
 End Extends.
